@@ -4,13 +4,8 @@ import z3
 from pyvc import extract
 from pyvc.execute import Executor
 from pyvc.engine import Contract
-m = importlib.import_module('contracts.' + sys.argv[1])
-cons = {q: Contract(q, d, m.ALIASES) for q, d in m.C.items()}
-eng = Executor(cons, m.ALIASES, getattr(m, 'MACROS', {}), getattr(m, 'GLOBALS', {}))
-eng.sigs = {}
-nodes = {}
-for q in cons:
-    node, seg, sha, path = extract.find(q); nodes[q] = node; eng.sigs[q] = extract.signature_defaults(node)
+from pyvc.execute import make_engine
+eng, cons, nodes, shas, errs = make_engine(sys.argv[1])
 q = [q for q in cons if sys.argv[2] in q][0]
 t0=time.time()
 obls, _ = eng.generate(q, nodes[q])
